@@ -1198,6 +1198,7 @@ carquet_status_t carquet_read_next_page(
         if (status != CARQUET_OK) {
             return status;
         }
+        reader->page_dense_read = 0;
     }
 
     /* Calculate how many values to return from the current page */
@@ -1207,11 +1208,28 @@ carquet_status_t carquet_read_next_page(
         to_copy = available;
     }
 
-    /* Copy values from decoded buffers */
+    /* Copy values from decoded buffers. decoded_values holds only the
+     * non-null values of the page, densely packed: the rows delivered map to
+     * as many values as they have entries at the maximum definition level,
+     * starting behind the values already handed out from this page. */
     size_t value_size = get_value_size(reader->type, reader->type_length);
-    size_t offset = (size_t)reader->page_values_read * value_size;
+    int32_t dense_start = reader->page_values_read;
+    int32_t dense_count = to_copy;
+    if (reader->max_def_level > 0) {
+        const int16_t* page_def = reader->decoded_def_levels + reader->page_values_read;
+        dense_start = reader->page_dense_read;
+        dense_count = 0;
+        for (int32_t i = 0; i < to_copy; i++) {
+            if (page_def[i] == reader->max_def_level) {
+                dense_count++;
+            }
+        }
+    }
 
-    memcpy(values, (uint8_t*)reader->decoded_values + offset, (size_t)to_copy * value_size);
+    memcpy(values, (uint8_t*)reader->decoded_values + (size_t)dense_start * value_size,
+           (size_t)dense_count * value_size);
+    reader->page_dense_read += dense_count;
+    reader->last_values_copied = dense_count;
 
     if (def_levels) {
         memcpy(def_levels, reader->decoded_def_levels + reader->page_values_read,
